@@ -274,14 +274,18 @@ func (c *checkCtx) bindingSelfTest(module, cfg string, traces []*rtrace, max int
 		if len(corrupted) >= max {
 			break
 		}
-		if len(t.lines) < 4 {
+		short := len(t.lines) < 4 // one record per trace (init line + record): only a field can be corrupted
+		if short && (len(t.lines) != 2 || !strings.Contains(string(t.lines[1]), `["a","`)) {
 			continue
 		}
-		k := 1 + len(corrupted)%(len(t.lines)-2) // an event line (not the init line, not the end line)
+		k := 1
+		if !short {
+			k = 1 + len(corrupted)%(len(t.lines)-2) // an event line (not the init line, not the end line)
+		}
 		line := string(t.lines[k])
 		var bad [][]byte
 		switch {
-		case len(corrupted)%2 == 0 && strings.Contains(line, `["a","`):
+		case (short || len(corrupted)%2 == 0) && strings.Contains(line, `["a","`):
 			// rename the first atom of the event
 			i := strings.Index(line, `["a","`) + 6
 			j := i + strings.Index(line[i:], `"`)
